@@ -26,13 +26,14 @@ fn main() {
         if id == "C10" { corr::c10::resolve(&out); }
         return;
     }
-    silence_panics();
+    if std::env::var("CORR_SHOW_PANICS").is_err() { silence_panics(); }
     let mut ctx = Ctx::new(&id, tier, seed, out);
     if let Some(p) = replay {
         let text = std::fs::read_to_string(&p).expect("replay file");
         ctx.replay = Some(text.lines().map(|s| s.to_string()).filter(|s| !s.is_empty() && !s.starts_with('#')).collect());
     }
     match id.as_str() {
+        "C08" => corr::c08::run(&mut ctx),
         "C10" => corr::c10::run(&mut ctx),
         "C12" => corr::c12::run(&mut ctx),
         "C13" => corr::c13::run(&mut ctx),
